@@ -404,6 +404,10 @@ def o_delay(v: View, stats=None):
                 nsl = fv.next_sleep_s
             if nsl is not None:
                 seen.append(("next_sleep_s", nsl))
+            elif any(h[4] == "defer" and len(h) < 6 for h in s.handlers) and (
+                (kind == "return" and v.is_execute and tname(fv) == "RetryOutcome") or (kind == "raise" and tname(fv) == "RetryExhaustedError")
+            ):
+                yield "next-sleep-missing", f"attempt {s.i}: the sleep handler deferred the delay {s.handlers[-1][3]!r}; the delivered {tname(fv)} reports next_sleep_s=None"
         for who, d in seen:
             if not isinstance(d, (int, float)) or d != d or d < 0 or d == math.inf:
                 yield "delay-not-sanitised", f"attempt {s.i}: {who} saw delay {d!r} (strategy returned {value!r})"
@@ -448,7 +452,11 @@ def o_outcome(v: View, stats=None, propagating=False):
         return
     o = val
     if propagating:
-        return  # a caller callback raised: the property only limits what may propagate
+        # a caller callback raised: the property only limits what may propagate - but whatever outcome IS returned still counts the
+        # operation's invocations
+        if o.attempts != v.nops:
+            yield "outcome-wrong-attempts", f"attempts={o.attempts} but the operation was invoked {v.nops} times (a caller callback raised; execute() returned {o.stop_reason})"
+        return
     for x in v.segs[:-1]:
         for h in x.handlers:
             if h[4] in ("defer", "abort"):
@@ -727,7 +735,7 @@ def o_events(v: View, stats=None):
                 yield "terminal-wrong-operation", f"terminal operation tag {tags.get('operation')!r}, configured {opname!r}"
     # sink parity: log stream == metric stream (all events incl. breaker)
     allm = v.all_metric(include_breaker=True)
-    if not v.sc.get("no_hooks"):
+    if not v.sc.get("no_hooks") and v.sc.get("hook_set", "both") == "both":
         if len(allm) != len(logs):
             yield "log-metric-count-differs", f"metric {[m[1] for m in allm]} vs log {[l[1] for l in logs]}"
         else:
@@ -743,6 +751,8 @@ def o_events(v: View, stats=None):
                 if ra is not None and m[1] != "retry":
                     yield "retry-after-on-non-retry-log", f"log {l[1:]}"
     # timeline
+    if v.is_execute and kind == "return" and v.sc.get("timeline") and not v.no_retry and v.segs and tname(val) == "RetryOutcome" and val.timeline is None:
+        yield "timeline-missing", f"a timeline capture was requested ({v.sc.get('timeline')!r}: {type(v.rec.timeline_obj).__name__ if v.rec.timeline_obj is not None else True}) but the outcome carries none"
     if v.is_execute and kind == "return" and getattr(val, "timeline", None) is not None and not v.no_retry:
         evs = val.timeline.events
         if v.rec.objs.get("tl_before") is not None:
@@ -785,8 +795,16 @@ def o_events(v: View, stats=None):
         elif e[0] == "br.failure" and e[2] is not None:
             want.append((e[2], "open", e[1]))
     got = [(m[1], dict(m[4]).get("state"), dict(m[4]).get("class")) for m in v.all_metric(include_breaker=True) if m[1] in BREAKER_EVENTS]
-    if spy and not v.sc.get("no_hooks") and want != got:
+    only = v.sc.get("hook_set", "both")
+    if only == "log":
+        got = want  # (the metric-shaped records are mirrors of the log records here; the log side is judged below)
+    if spy and not v.sc.get("no_hooks") and only in ("both", "metric") and want != got:
         yield "breaker-events-differ-from-transitions", f"breaker said {want}; events {got}"
+    if spy and not v.sc.get("no_hooks") and only in ("both", "log"):
+        # the log hook is a sink of its own: it gets the breaker's events whether or not a metric hook is attached next to it
+        gotl = [(e[1], dict(e[2]).get("state"), dict(e[2]).get("class")) for e in v.trace if e[0] == "log" and e[1] in BREAKER_EVENTS]
+        if want != gotl:
+            yield "breaker-events-differ-from-transitions", f"breaker said {want}; the log hook received {gotl}" + ("" if only == "both" else " (no metric hook attached)")
     for e in spy:
         if e[0] == "br.allow" and e[3] is not None and len(e) > 5 and e[2] != e[5]:
             yield "breaker-event-state-is-not-the-breakers-state", f"allow() reported state {e[2]!r} with event {e[3]} while the breaker's state is {e[5]!r}"
